@@ -31,7 +31,9 @@ func queryMain(args []string) error {
 	scratch := fs.String("scratch", "", "scratch directory")
 	workers := fs.Int("workers", 8, "parallel workers")
 	maxM := fs.Int("max-mismatches", 60, "mismatches kept per signature group in the report")
+	total := fs.Bool("total", false, "C10: cases carry no expected answer, only panics are reported")
 	_ = fs.Parse(args)
+	qrun.Total = *total
 	logrus.SetOutput(io.Discard)
 
 	datasets := map[string]map[string]any{}
